@@ -1,5 +1,6 @@
 """C23 - batch processing does not depend on the letter case of names."""
 import copy
+import gc
 import os
 
 from hypothesis import strategies as st
@@ -20,6 +21,8 @@ RULE = ('cases = (project description, config+seeds, source casing, config/optio
         'files. non-trivial = the permutation changes the spelling of a name that a config entry, a seed or a '
         'transformation option refers to AND the graph has >= 3 items; distinct by JSON hash of the whole case')
 ASSUMPTIONS = ['run A (all lower-case) is the reference behaviour; a loki exception in run A is a rejected input',
+               'each run executes with the cyclic garbage collector off (collected between runs): loki results that depend on '
+               'collector timing (dead weakly referenced scopes) are outside this property',
                'generated Fortran is valid (gfortran-checked by the generator self-test) and case-insensitive by the standard',
                'role/mode strings are not names and are left unchanged']
 SHARDS = {'quick': 8, 'thorough': 16}
@@ -27,9 +30,12 @@ BUDGET = {'quick': 60, 'thorough': 1200}
 
 PROFILE = gen.profile()          # core profile (triggers of listed C21 findings switched off)
 PROFILE['iface_same_module'] = True       # repaired in /repo by 9676bad: generated again (no boost)
-DEP_IGNORE = ('DependencyTransformation: mixed-case spelling of an `ignore` entry (listed finding '
-              'C23:dep:mixed-case-ignore-entry-not-renamed), entry kept lower-case')
-
+IGNORE_CASE = {
+    'dep': 'DependencyTransformation: mixed-case spelling of an `ignore` entry (listed finding '
+           'C23:dep:mixed-case-ignore-entry-not-renamed), entry kept lower-case',
+    'dupsub': 'DuplicateKernel(duplicate_subgraph=True): mixed-case spelling of an `ignore` entry (listed finding '
+              'C23:dupsub:mixed-case-ignore-entry-not-honoured), entry kept lower-case',
+}
 
 def perm(s, bits):
     return ''.join(c.upper() if (bits >> (i % 12)) & 1 else c for i, c in enumerate(s))
@@ -109,7 +115,26 @@ def _lower_graph(g):
 
 
 def observe(proj, cfg, casing, mode, opt, optcase):
-    """one full run -> observation dict (everything lower-cased where names are concerned)"""
+    """
+    one full run -> observation dict (everything lower-cased where names are concerned).
+
+    The cyclic garbage collector is switched off during a run and triggered explicitly afterwards: loki scopes are
+    held through weak references, and whether e.g. DuplicateKernel meets a dead scope (AttributeError: 'NoneType'
+    object has no attribute 'symbol_attrs') depends on *when* the collector happens to run, i.e. on the history of
+    the process and not on the case. Without this the lower-case and the permuted run of one case can differ by
+    collector timing alone.
+    """
+    was_enabled = gc.isenabled()
+    gc.disable()
+    try:
+        return _observe(proj, cfg, casing, mode, opt, optcase)
+    finally:
+        if was_enabled:
+            gc.enable()
+        gc.collect()
+
+
+def _observe(proj, cfg, casing, mode, opt, optcase):
     from loki.batch import ProcessingStrategy
     obs = {}
     with harness.Workdir(proj, casing, label='c23') as wd:
@@ -184,12 +209,16 @@ def order_valid(visits, edges, reverse):
 def check_case(case, ctx):
     proj, cfg, mode, opt = case['proj'], case['cfg'], case['mode'], case['opt']
     kc = KCase(case['kcase'])
-    # exclusion by construction of a listed finding: with the DependencyTransformation pipeline the `ignore` entries
-    # keep their lower-case spelling (the committed replay file sets mode['dep_ignore_case'] to exercise the trigger)
-    keep_ignore = mode['pipeline'] == 'dep' and not mode.get('dep_ignore_case')
+    # exclusion by construction of two listed findings: with the DependencyTransformation and the
+    # DuplicateKernel(duplicate_subgraph) pipelines the `ignore` entries keep their lower-case spelling (the committed
+    # replay files set mode['ignore_case'] to exercise the triggers)
+    keep_ignore = mode['pipeline'] in IGNORE_CASE and not mode.get('ignore_case')
     cfg_b, kept = permute_cfg(cfg, kc, keep_ignore)
     if kept:
-        ctx.exclude(DEP_IGNORE, kept)
+        ctx.exclude(IGNORE_CASE[mode['pipeline']], kept)
+    mixed_ignore = [k for ent in [cfg_b['config']['default']] + list(cfg_b['config']['routines'].values())
+                    for k in ent.get('ignore', ()) if k != k.lower()]
+    listed = mode.get('ignore_case') and mixed_ignore      # reachable only from the committed replay files
     oc = KCase(list(reversed(case['kcase'])))
     classes = [f'pipeline={mode["pipeline"]}', f'plan={mode["plan"]}', f'full_parse={mode["full_parse"]}',
                f'file_graph={mode["file_graph"]}']
@@ -207,11 +236,7 @@ def check_case(case, ctx):
         while root.__cause__ is not None:
             root = root.__cause__
         bucket = exc_bucket(root)
-        mixed_ignore = [k for ent in [cfg_b['config']['default']] + list(cfg_b['config']['routines'].values())
-                        for k in ent.get('ignore', ()) if k != k.lower()]
-        if mode['pipeline'] == 'dep' and mode.get('dep_ignore_case') and mixed_ignore \
-                and bucket == 'RuntimeError@loki/batch/item_factory.py:_get_procedure_item':
-            # listed finding, reachable only from the committed replay file (see keep_ignore above)
+        if mode['pipeline'] == 'dep' and listed and bucket == 'RuntimeError@loki/batch/item_factory.py:_get_procedure_item':
             ctx.fail('C23:dep:mixed-case-ignore-entry-not-renamed', case,
                      f'ignore entries {mixed_ignore}: {root!r}'[:400])
         else:
@@ -247,6 +272,11 @@ def check_case(case, ctx):
         return
     pl = mode['pipeline']
     if 'graph1' in a:
+        if pl == 'dupsub' and listed and (a['graph1'] != b['graph1'] or a['cache1'] != b['cache1']):
+            d = sorted(set(a['cache1']) ^ set(b['cache1']))[:6]
+            ctx.fail('C23:dupsub:mixed-case-ignore-entry-not-honoured', case,
+                     f'ignore entries {mixed_ignore}: items only in one of the runs: {d}')
+            return
         if diff(f'after-{pl}', a['graph1'], b['graph1']):
             return
         if a['cache1'] != b['cache1']:
